@@ -76,7 +76,7 @@ CHECKS = {
         text="55 colliding public calls; BFS over histories where a state is the canonical snapshot of every mutable global/function default/class attribute of fastavro plus the argument pool, closed frontier (all finite histories over the alphabet, under the snapshot assumption) and, independently of the snapshot, every ordered pair of calls; each transition checks result == fresh-process baseline and argument objects intact.",
         note=PURE + " Snapshot completeness is an assumption for the closure claim; the all-pairs pass does not rely on it."),
     "C18": dict(engine=E4, category="model_checking", design_ref="DESIGN.md 4/C18",
-        technique="stateless schedule exploration of real threads under a sys.settrace baton scheduler, iterative preemption bounding (all schedules with <= b preemptions)",
+        technique="stateless schedule exploration of real threads under a sys.settrace baton scheduler, iterative preemption bounding (all schedules with <= b preemptions); cold-start units re-import the library per execution",
         text="All unordered pairs (incl. self-pairs) of 14 operations chosen for the shared state they touch, two real threads on distinct streams sharing parsed schemas; every schedule with at most 1 preemption (2 for the small pairs; thorough 2/3, opcode granularity in the shared-state files, triples) is executed at line granularity and each thread's result compared with its solo result.",
         note=PURE + " Code outside /repo/fastavro is atomic in this model; bound stated per unit in the evidence."),
     "C19": dict(engine=E1, category="exploration", design_ref="DESIGN.md 4/C19",
